@@ -1,9 +1,404 @@
-//! STUB component for rimt -- to be written
+//! component 18: RIMT.  Case vocabulary documented in coq/theories/Spec/RimtS.v.
 use crate::sx::*;
+use crate::tcommon::*;
 use crate::Emit;
+use acpi_tables::rimt::*;
+use acpi_tables::Aml;
 
-pub fn run(_case: &Sx, _out: &mut Vec<Ev>) {
-    panic!("harness: component rimt not implemented")
+fn opt(x: &Sx) -> Option<u64> {
+    match x.list() {
+        [] => None,
+        [v] => Some(v.num()),
+        _ => panic!("harness: bad option argument"),
+    }
 }
 
-pub fn gen(_tier: &str, _rng: &mut Rng, _emit: &mut Emit) {}
+/// IommuOffset is opaque: embed it in a throw-away IdMapping and read the field back
+fn handle_value(h: IommuOffset) -> u64 {
+    let mut v = Vec::new();
+    IdMapping::new(0, 0, 0, h, false, false, false).to_aml_bytes(&mut v);
+    u32::from_le_bytes([v[12], v[13], v[14], v[15]]) as u64
+}
+
+fn pci(x: &Sx) -> Option<PciDevice> {
+    match x.list() {
+        [] => None,
+        [d] => {
+            let d = d.list();
+            Some(PciDevice::new(d[0].num() as u16, d[1].num() as u8, d[2].num() as u8, d[3].num() as u8))
+        }
+        _ => panic!("harness: bad pci option"),
+    }
+}
+
+fn wires(x: &Sx) -> Option<Vec<InterruptWire>> {
+    match x.list() {
+        [] => None,
+        [ws] => Some(
+            ws.list()
+                .iter()
+                .map(|w| {
+                    let w = w.list();
+                    InterruptWire::new(w[0].num() as u32, w[1].boolean(), w[2].boolean(), w[3].num() as u16)
+                })
+                .collect(),
+        ),
+        _ => panic!("harness: bad wires option"),
+    }
+}
+
+fn maps(x: &Sx, handles: &[Option<IommuOffset>]) -> Option<Vec<IdMapping>> {
+    match x.list() {
+        [] => None,
+        [ms] => Some(
+            ms.list()
+                .iter()
+                .map(|m| {
+                    let m = m.list();
+                    let r = m[3].list();
+                    if r.len() != 2 || r[0].num() != 104 {
+                        panic!("harness: bad handle reference");
+                    }
+                    let h = match handles.get(r[1].num() as usize) {
+                        Some(Some(h)) => *h,
+                        _ => panic!("harness: reference to an op that returned no IommuOffset"),
+                    };
+                    IdMapping::new(m[0].num() as u32, m[1].num() as u32, m[2].num() as u32, h, m[4].boolean(), m[5].boolean(), m[6].boolean())
+                })
+                .collect(),
+        ),
+        _ => panic!("harness: bad mappings option"),
+    }
+}
+
+pub fn run(case: &Sx, out: &mut Vec<Ev>) {
+    let c = case.list();
+    let ctor = c[0].list();
+    let (oem, tbl, rev) = hdr_args(ctor);
+    let mut t = RIMT::new(oem, tbl, rev);
+    let mut handles: Vec<Option<IommuOffset>> = Vec::new();
+    for op in &c[1..] {
+        if let Sx::A(_) = op {
+            out.push(image(&t));
+            continue;
+        }
+        let o = op.list();
+        let n = |i: usize| o[i].num();
+        match n(0) {
+            1 => {
+                let dev = Iommu::new(n(1) as u16, opt(&o[2]), pci(&o[3]), opt(&o[4]).map(|v| v as u32), wires(&o[5]));
+                let h = t.add_iommu(dev);
+                handles.push(Some(h));
+                out.push(Ev::Num(handle_value(h)));
+            }
+            2 => {
+                let dev = PcieRootComplex::new(n(1) as u16, n(2) as u16, o[3].boolean(), o[4].boolean(), maps(&o[5], &handles));
+                t.add_pcie_root_complex(dev);
+                handles.push(None);
+                out.push(Ev::Num(0));
+            }
+            3 => {
+                let name = String::from_utf8(o[2].bytes()).expect("harness: platform name must be UTF-8");
+                let dev = Platform::new(n(1) as u16, name, maps(&o[3], &handles));
+                t.add_platform(dev);
+                handles.push(None);
+                out.push(Ev::Num(0));
+            }
+            _ => panic!("harness: bad rimt op"),
+        }
+    }
+}
+
+// ------------------------------------------------------------------ generators
+
+fn some(x: Sx) -> Sx {
+    l(vec![x])
+}
+fn none() -> Sx {
+    l(vec![])
+}
+
+fn rand_opt(rng: &mut Rng, bits: u32) -> Sx {
+    if rng.chance(1, 2) {
+        none()
+    } else {
+        some(a(rng.val(bits)))
+    }
+}
+
+/// (segment bus device function); rarely a device / function the constructor refuses
+fn rand_pci_dev(rng: &mut Rng) -> Sx {
+    let dev = if rng.chance(1, 60) { rng.range(32, 255) } else { rng.below(32) };
+    let func = if rng.chance(1, 60) { rng.range(8, 255) } else { rng.below(8) };
+    l(vec![a(rng.val(16)), a(rng.val(8)), a(dev), a(func)])
+}
+
+fn wire(rng: &mut Rng, flags: u64) -> Sx {
+    l(vec![a(rng.val(32)), a(flags & 1), a((flags >> 1) & 1), a(rng.val(16))])
+}
+
+fn wire_list(rng: &mut Rng, k: u64) -> Sx {
+    l((0..k).map(|i| { let f = if k >= 4 { i } else { rng.below(4) }; wire(rng, f) }).collect())
+}
+
+fn mapping(rng: &mut Rng, iommus: &[usize], flags: u64) -> Sx {
+    let k = *rng.pick(iommus) as u64;
+    l(vec![a(rng.val(32)), a(rng.val(32)), a(rng.val(32)), l(vec![a(104), a(k)]), a(flags & 1), a((flags >> 1) & 1), a((flags >> 2) & 1)])
+}
+
+/// Option<Vec<IdMapping>> with k mappings referring to random earlier add_iommu ops (k forced to 0 when there is none)
+fn map_opt(rng: &mut Rng, iommus: &[usize], k: Option<u64>) -> Sx {
+    match k {
+        None => none(),
+        Some(k) => {
+            let k = if iommus.is_empty() { 0 } else { k };
+            some(l((0..k).map(|i| { let f = if k >= 8 { i } else { rng.below(8) }; mapping(rng, iommus, f) }).collect()))
+        }
+    }
+}
+
+fn ascii_name(rng: &mut Rng, n: u64) -> Sx {
+    const ALPHA: &[u8] = b"ABCDEFGHIJKLMNOPQRSTUVWXYZ0123456789._\\";
+    bytes(&(0..n).map(|_| *rng.pick(ALPHA)).collect::<Vec<u8>>())
+}
+
+/// sub-element count: None = the Option is absent
+fn rand_sub(rng: &mut Rng, min: u64, max: u64) -> Option<u64> {
+    if min == 0 && rng.chance(1, 4) {
+        None
+    } else {
+        Some(rng.range(min, max))
+    }
+}
+
+fn iommu_op(rng: &mut Rng, base: Sx, pci: Sx, prox: Sx, wires: Option<u64>) -> Sx {
+    let w = match wires {
+        None => none(),
+        Some(k) => some(wire_list(rng, k)),
+    };
+    l(vec![a(1), a(rng.val(16)), base, pci, prox, w])
+}
+
+fn pcierc_op(rng: &mut Rng, iommus: &[usize], flags: u64, k: Option<u64>) -> Sx {
+    l(vec![a(2), a(rng.val(16)), a(rng.val(16)), a(flags & 1), a((flags >> 1) & 1), map_opt(rng, iommus, k)])
+}
+
+fn platform_op(rng: &mut Rng, iommus: &[usize], name_len: u64, k: Option<u64>) -> Sx {
+    l(vec![a(3), a(rng.val(16)), ascii_name(rng, name_len), map_opt(rng, iommus, k)])
+}
+
+/// a random op of the given kind; `iommus` = indices of the earlier add_iommu ops
+pub fn rand_op(rng: &mut Rng, kind: u64, iommus: &[usize], min_sub: u64, max_sub: u64) -> Sx {
+    match kind {
+        1 => {
+            let base = rand_opt(rng, 64);
+            let pci = if rng.chance(1, 2) { none() } else { some(rand_pci_dev(rng)) };
+            let prox = rand_opt(rng, 32);
+            let w = rand_sub(rng, min_sub, max_sub);
+            iommu_op(rng, base, pci, prox, w)
+        }
+        2 => {
+            let f = rng.below(4);
+            let k = rand_sub(rng, min_sub, max_sub);
+            pcierc_op(rng, iommus, f, k)
+        }
+        _ => {
+            let n = rng.below(41);
+            let k = rand_sub(rng, min_sub, max_sub);
+            platform_op(rng, iommus, n, k)
+        }
+    }
+}
+
+/// a history of the given kinds, later mappings referring to random earlier IOMMUs
+fn build(rng: &mut Rng, kinds: &[u64], min_sub: u64, max_sub: u64) -> Vec<Sx> {
+    let mut iommus: Vec<usize> = Vec::new();
+    let mut ops = Vec::new();
+    for (i, k) in kinds.iter().enumerate() {
+        ops.push(rand_op(rng, *k, &iommus, min_sub, max_sub));
+        if *k == 1 {
+            iommus.push(i);
+        }
+    }
+    ops
+}
+
+fn rand_ctor(rng: &mut Rng) -> Sx {
+    l(rand_hdr(rng))
+}
+
+fn emit_ops(rng: &mut Rng, emit: &mut Emit, ops: Vec<Sx>) {
+    let c = rand_ctor(rng);
+    emit.case(18, history(rng, c, ops));
+}
+
+pub fn gen(tier: &str, rng: &mut Rng, emit: &mut Emit) {
+    // empty history
+    for _ in 0..4 {
+        emit_ops(rng, emit, vec![]);
+    }
+    // each device kind alone
+    for k in 1..=3u64 {
+        for _ in 0..8 {
+            let ops = build(rng, &[k], 0, 6);
+            emit_ops(rng, emit, ops);
+        }
+    }
+    // IOMMU: every Option present / absent (16 combinations), wires 0..6 with all 4 flag combinations
+    for m in 0..16u64 {
+        let base = if m & 1 != 0 { some(a(rng.val(64))) } else { none() };
+        let pci = if m & 2 != 0 { some(l(vec![a(rng.val(16)), a(rng.val(8)), a(rng.below(32)), a(rng.below(8))])) } else { none() };
+        let prox = if m & 4 != 0 { some(a(rng.val(32))) } else { none() };
+        let w = if m & 8 != 0 { Some(rng.below(7)) } else { None };
+        let op = iommu_op(rng, base, pci, prox, w);
+        emit_ops(rng, emit, vec![op]);
+    }
+    for k in 0..=6u64 {
+        let t1 = rand_opt(rng, 64);
+        let t2 = rand_opt(rng, 32);
+        let op = iommu_op(rng, t1, none(), t2, Some(k));
+        emit_ops(rng, emit, vec![op]);
+    }
+    for f in 0..4u64 {
+        let w = some(l(vec![wire(rng, f)]));
+        let op = l(vec![a(1), a(rng.val(16)), none(), none(), none(), w]);
+        emit_ops(rng, emit, vec![op]);
+    }
+    // PCI device boundary values of the asserting constructor
+    for (dev, func) in [(0u64, 0u64), (31, 7), (32, 0), (0, 8), (31, 8), (255, 255), (32, 7)] {
+        let p = some(l(vec![a(rng.val(16)), a(rng.val(8)), a(dev), a(func)]));
+        let op = l(vec![a(1), a(rng.val(16)), none(), p, none(), none()]);
+        emit_ops(rng, emit, vec![op]);
+    }
+    // ID mappings: all 8 boolean combinations, 0..6 mappings, Option absent / empty, in both mapping-bearing devices
+    for f in 0..8u64 {
+        let io = iommu_op(rng, none(), none(), none(), None);
+        let m = some(l(vec![mapping(rng, &[0], f)]));
+        let rc = l(vec![a(2), a(rng.val(16)), a(rng.val(16)), a(f & 1), a((f >> 1) & 1), m.clone()]);
+        let pf = l(vec![a(3), a(rng.val(16)), ascii_name(rng, 5), m]);
+        emit_ops(rng, emit, vec![io, rc, pf]);
+    }
+    for k in 0..=6u64 {
+        let t1 = rand_opt(rng, 64);
+        let io = iommu_op(rng, t1, none(), none(), Some(k));
+        let t1 = rand_opt(rng, 32);
+        let io2 = iommu_op(rng, none(), none(), t1, None);
+        let t1 = rng.below(4);
+        let rc = pcierc_op(rng, &[0, 1], t1, Some(k));
+        let t1 = rng.below(41);
+        let pf = platform_op(rng, &[0, 1], t1, Some(k));
+        emit_ops(rng, emit, vec![io, io2, rc, pf]);
+    }
+    for k in [None, Some(0u64)] {
+        let t1 = rng.below(4);
+        let rc = pcierc_op(rng, &[], t1, k);
+        let pf = platform_op(rng, &[], 7, k);
+        emit_ops(rng, emit, vec![rc, pf]);
+    }
+    // platform names of length 0..40 (both parities), with and without mappings
+    for n in 0..=40u64 {
+        let io = iommu_op(rng, none(), none(), none(), Some(1));
+        let k = if n % 3 == 0 { None } else { Some(n % 4) };
+        let pf = platform_op(rng, &[0], n, k);
+        emit_ops(rng, emit, vec![io, pf]);
+    }
+    // variable-size devices with 0..70 sub-elements
+    for k in 0..=70u64 {
+        let t1 = rand_opt(rng, 64);
+        let t2 = rand_opt(rng, 32);
+        let io = iommu_op(rng, t1, none(), t2, Some(k));
+        let t1 = rng.below(4);
+        let rc = pcierc_op(rng, &[0], t1, Some(k));
+        let pf = platform_op(rng, &[0], k % 41, Some(70 - k));
+        emit_ops(rng, emit, vec![io, rc, pf]);
+    }
+    // all interleavings of the 3 device kinds for histories of length <= 4
+    for len in 1..=4u32 {
+        for code in 0..3u64.pow(len) {
+            let mut kinds = Vec::new();
+            let mut c = code;
+            for _ in 0..len {
+                kinds.push(c % 3 + 1);
+                c /= 3;
+            }
+            let ops = build(rng, &kinds, 0, 6);
+            emit_ops(rng, emit, ops);
+        }
+    }
+    // the C05 oracle re-walks the image for every handle returned so far (cubic in the number of handle-returning ops):
+    // under C05 the long runs carry an IOMMU every 30 ops instead of IOMMUs only
+    let c05 = false; // the C05 oracle now walks each image once: no need for sparser handle ops
+    // homogeneous runs of 300 of the smallest entries of each kind (count 255 -> 256)
+    for k in 1..=3u64 {
+        let kinds: Vec<u64> = if c05 && k == 1 { (0..300).map(|i| if i % 30 == 0 { 1 } else { 2 }).collect() } else { vec![k; 300] };
+        let ops = build(rng, &kinds, 0, 0);
+        emit_ops(rng, emit, ops);
+    }
+    {
+        // smallest possible: PCIe root complexes without mappings (16 bytes)
+        let ops = (0..300).map(|_| { let f = rng.below(4); pcierc_op(rng, &[], f, None) }).collect();
+        emit_ops(rng, emit, ops);
+    }
+    if !c05 {
+        // a run crossing 65535 -> 65536 bytes: 2100 IOMMUs of 32 bytes
+        let ops = (0..2100).map(|_| { let b = rand_opt(rng, 64); let p = rand_opt(rng, 32); iommu_op(rng, b, none(), p, None) }).collect();
+        emit_ops(rng, emit, ops);
+    }
+    for _ in 0..2 {
+        // a run of large devices (40..70 wires / mappings each) crossing 65535 -> 65536 bytes: IOMMU offsets beyond 16 bits
+        let kinds: Vec<u64> = (0..100).map(|_| rng.range(1, 3)).collect();
+        let ops = build(rng, &kinds, 40, 70);
+        emit_ops(rng, emit, ops);
+    }
+    if tier == "thorough" {
+        let ops = (0..65_540).map(|_| { let f = rng.below(4); pcierc_op(rng, &[], f, None) }).collect();
+        emit_ops(rng, emit, ops);
+    }
+    // random mixed histories, later mappings referring to random earlier IOMMU handles
+    let n = if tier == "thorough" { 3000 } else { 200 };
+    for _ in 0..n {
+        let len = match rng.below(3) {
+            0 => rng.range(1, 6),
+            1 => rng.range(1, 24),
+            _ => rng.range(25, 120),
+        };
+        let kinds: Vec<u64> = (0..len).map(|_| rng.range(1, 3)).collect();
+        let max_sub = if len <= 40 && rng.chance(1, 5) { 70 } else { 6 };
+        let ops = build(rng, &kinds, 0, max_sub);
+        emit_ops(rng, emit, ops);
+    }
+}
+
+/// C18: device lengths at the 16-bit field maximum, one beyond and far beyond (SPEC_NOTES section D, rimt.rs)
+pub fn gen18(_tier: &str, rng: &mut Rng, emit: &mut Emit) {
+    // Iommu: 32 + 8 w   -> 65528 (largest that fits), 65536, 70000
+    for w in [8187u64, 8188, 8189, 8746, 16384] {
+        let t1 = rand_opt(rng, 64);
+        let t2 = rand_opt(rng, 32);
+        let op = iommu_op(rng, t1, none(), t2, Some(w));
+        emit_ops(rng, emit, vec![op.clone()]);
+        let first = iommu_op(rng, none(), none(), none(), Some(2));
+        emit_ops(rng, emit, vec![first, op]);
+    }
+    // PcieRootComplex: 16 + 20 m   -> 65516 (largest that fits), 65536, 69996, 70016
+    for m in [3275u64, 3276, 3277, 3499, 3500, 6554] {
+        let io = iommu_op(rng, none(), none(), none(), None);
+        let t1 = rng.below(4);
+        let op = pcierc_op(rng, &[0], t1, Some(m));
+        emit_ops(rng, emit, vec![io, op]);
+    }
+    // Platform: 12 + n + 1 + 20 m   -> 65534, 65535, 65536, 65537, 70000 through the name alone and through name + mappings
+    for total in [65_534u64, 65_535, 65_536, 65_537, 70_000] {
+        let io = iommu_op(rng, none(), none(), none(), None);
+        let op = platform_op(rng, &[], total - 13, None);
+        emit_ops(rng, emit, vec![io, op]);
+        let io = iommu_op(rng, none(), none(), none(), None);
+        let m = 3275u64;
+        let op = platform_op(rng, &[0], total - 13 - 20 * m, Some(m));
+        emit_ops(rng, emit, vec![io, op]);
+        let io = iommu_op(rng, none(), none(), none(), None);
+        let m = (total - 13) / 20;
+        let op = platform_op(rng, &[0], total - 13 - 20 * m, Some(m));
+        emit_ops(rng, emit, vec![io, op]);
+    }
+}
